@@ -38,12 +38,15 @@ const (
 	symFirstPrefixNonce
 	symFirstEmptyNonce
 	symFirstMalformed
+	symFirstIterZero
+	symFirstIterNeg
 	symFinalValid
 	symFinalOtherKey
 	symFinalTampered
 	symFinalEmptyState
 	symFinalNoVerifier
 	symFinalPrefix
+	symFinalZeroKey
 	symEmpty
 	symJunk
 	sym235
@@ -51,8 +54,8 @@ const (
 	nSyms
 )
 
-var c15SymNames = []string{"server-first(valid)", "server-first(foreign nonce)", "server-first(foreign nonce, longer than any nonce seen so far)", "server-first(nonce = proper prefix of the client nonce)", "server-first(empty nonce)", "server-first(malformed)", "server-final(valid)",
-	"server-final(other exchange/key)", "server-final(valid prefix, tampered tail)", "server-final(over empty state)", "server-final(empty verifier \"v=\")", "server-final(proper prefix of the genuine signature)", "empty challenge", "junk", "235", "535"}
+var c15SymNames = []string{"server-first(valid)", "server-first(foreign nonce)", "server-first(foreign nonce, longer than any nonce seen so far)", "server-first(nonce = proper prefix of the client nonce)", "server-first(empty nonce)", "server-first(malformed)", "server-first(iteration count 0)", "server-first(negative iteration count)", "server-final(valid)",
+	"server-final(other exchange/key)", "server-final(valid prefix, tampered tail)", "server-final(over empty state)", "server-final(empty verifier \"v=\")", "server-final(proper prefix of the genuine signature)", "server-final(signed with an all-zero salted password)", "empty challenge", "junk", "235", "535"}
 
 const (
 	c15User = "scram,user=x%s"
@@ -222,6 +225,16 @@ func (s *c15Server) emit(sym int) (challenge []byte, code int) {
 		return []byte(sf), 334
 	case symFirstMalformed:
 		return []byte("r=" + s.cnonce + "SRV,i=64"), 334
+	case symFirstIterZero, symFirstIterNeg:
+		// well-formed and nonce-extending, but the iteration count is not a positive number: no genuine exchange can
+		// follow (the reference treats it like a nonce that does not extend the client's)
+		it := "0"
+		if sym == symFirstIterNeg {
+			it = "-1"
+		}
+		sf := "r=" + s.cnonce + "SRVNONCE,s=" + b64(c15Salt) + ",i=" + it
+		s.serverFirstSent, s.firstAnswered, s.validSig, s.firstExtends = sf, false, nil, false
+		return []byte(sf), 334
 	case symFinalValid:
 		s.lastWasFinal = symFinalValid
 		if s.firstAnswered && s.validSig != nil {
@@ -275,6 +288,12 @@ func (s *c15Server) emit(sym int) (challenge []byte, code int) {
 			sig = s.validSig
 		}
 		return []byte("v=" + b64(sig[:len(sig)/2])), 334
+	case symFinalZeroKey:
+		// what a server without the password can always compute: the signature under an all-zero salted password
+		s.lastWasFinal = symFinalZeroKey
+		zero := make([]byte, h().Size())
+		sig := mac(h, mac(h, zero, []byte("Server Key")), []byte(s.clientBare+","+s.serverFirstSent+","+s.clientFinalNoPf))
+		return []byte("v=" + b64(sig)), 334
 	case symEmpty:
 		return []byte{}, 334
 	case symJunk:
@@ -388,6 +407,8 @@ func c15ExecR(r *vf.Run, variant, maxLen int, hist int, c *vf.Chooser) (keys, wh
 				why = "forged-signature(empty verifier)"
 			case symFinalPrefix:
 				why = "forged-signature(prefix of the genuine one)"
+			case symFinalZeroKey:
+				why = "forged-signature(all-zero salted password)"
 			case symFinalValid:
 				if !srv.validSigShown {
 					why = "signature-outside-exchange"
@@ -399,6 +420,9 @@ func c15ExecR(r *vf.Run, variant, maxLen int, hist int, c *vf.Chooser) (keys, wh
 		}
 		if srv.firstAnswered && !srv.firstExtends {
 			why = "server-nonce-did-not-extend-client-nonce"
+			if strings.HasSuffix(srv.serverFirstSent, ",i=0") || strings.HasSuffix(srv.serverFirstSent, ",i=-1") {
+				why = "server-first-with-non-positive-iteration-count"
+			}
 		}
 		if len(srv.sent) == 1 {
 			why = "bare-235-as-first-server-message"
@@ -492,7 +516,7 @@ func init() {
 	vf.Register(&vf.Check{
 		ID: "C15", Title: "SCRAM authenticates the server",
 		Run: func(r *vf.Run) {
-			r.SetRule("every server message sequence up to length L over the 16-symbol alphabet {valid server-first, server-first with foreign/truncated nonce, server-first with an unrelated nonce longer than any seen so far, server-first whose nonce is a proper prefix of the client nonce, server-first with an empty nonce, malformed server-first, valid server-final (genuine signature over whatever exchange is running), server-final of another exchange/key, server-final with valid prefix and tampered tail, server-final over empty state, server-final with an empty verifier, server-final with a proper prefix of the genuine signature, empty challenge, junk, 235, 535}, chosen on the fly after each client message, through smtp.Client.Auth on the synchronous connection, for SCRAM-SHA-1/-256 and both PLUS variants, with a fresh Auth object, with an Auth object that already completed a conforming exchange on an earlier connection (whose genuine server signature the server may replay), and with an Auth object that went through an earlier exchange which is itself explored over the alphabet (so it may have failed or been aborted at any point; an earlier exchange of up to L-2 and a judged exchange of up to L-1 server messages); reference automaton decides which successes are legitimate; distinct by (variant, sequence)")
+			r.SetRule("every server message sequence up to length L over the 19-symbol alphabet {valid server-first, server-first with foreign/truncated nonce, server-first with an unrelated nonce longer than any seen so far, server-first whose nonce is a proper prefix of the client nonce, server-first with an empty nonce, malformed server-first, nonce-extending server-first with iteration count 0 / -1, valid server-final (genuine signature over whatever exchange is running), server-final of another exchange/key, server-final with valid prefix and tampered tail, server-final over empty state, server-final with an empty verifier, server-final with a proper prefix of the genuine signature, server-final signed under an all-zero salted password (what a server without the password can always compute), empty challenge, junk, 235, 535}, chosen on the fly after each client message, through smtp.Client.Auth on the synchronous connection, for SCRAM-SHA-1/-256 and both PLUS variants, with a fresh Auth object, with an Auth object that already completed a conforming exchange on an earlier connection (whose genuine server signature the server may replay), and with an Auth object that went through an earlier exchange which is itself explored over the alphabet (so it may have failed or been aborted at any point; an earlier exchange of up to L-2 and a judged exchange of up to L-1 server messages); reference automaton decides which successes are legitimate; distinct by (variant, sequence)")
 			r.Assume("PLUS variants run over a fabricated TLS 1.2 connection state (tls-unique); the real handshake is covered by C14", "password/user are ASCII")
 			maxLen0 := 5
 			if r.Thorough {
